@@ -257,16 +257,15 @@ pub fn gen(prop: &str, seed: u64, tier: u32) -> Vec<String> {
         }
         "C19" => {
             let ops = [("inv", 9), ("tr", 9), ("mulv", 12), ("mulm", 18), ("idmul", 9), ("mulid", 9), ("cross", 6), ("dot", 6), ("sdiv", 4), ("cmul", 6)];
-            for i in 0..(1500 * scale) {
+            for _ in 0..(1500 * scale) {
                 for (op, n) in ops {
-                    let vals: Vec<f64> = (0..n).map(|j| match (i % 6, j) {
-                        (0, _) => r.range(-2.0, 2.0) as f64,
-                        (1, j) if j < 9 => if j % 4 == 0 { r.range(0.8, 2.0) as f64 } else { 0.0 },          // diagonal
-                        (2, j) if j < 9 => if [1, 5, 6].contains(&j) { 1.0 } else { 0.0 },                     // permutation
-                        (3, j) if j < 9 => [0.2126, 0.7152, 0.0722, -0.1146, -0.3854, 0.5, 0.5, -0.4542, -0.0458][j] + (r.unit() as f64 - 0.5) * 1e-3,
-                        (4, _) => *r.pick(&[-2.0f64, -1.0, 0.0, 1.0, 2.0, 0.5]),
-                        _ => (r.range(-2.0, 2.0) as f64 * 1024.0).round() / 1024.0,
-                    }).collect();
+                    // every 3x3 operand gets its own structure class (random, diagonal, permutation, shear, triangular, sparse mask, colour, small integers)
+                    let mut vals: Vec<f64> = Vec::new();
+                    while vals.len() + 9 <= n { vals.extend(structured_matrix(&mut r)); }
+                    while vals.len() < n {
+                        let v = match r.below(4) { 0 => *r.pick(&[-2.0f64, -1.0, 0.0, 1.0, 2.0, 0.5]), 1 => (r.range(-2.0, 2.0) as f64 * 1024.0).round() / 1024.0, _ => r.range(-2.0, 2.0) as f64 };
+                        vals.push(v);
+                    }
                     if op == "sdiv" && vals[3].abs() < 0.01 { continue; }
                     out.push(format!("m32 {} {}", op, vals.iter().map(|v| hx(*v as f32)).collect::<Vec<_>>().join(" ")));
                     out.push(format!("m64 {} {}", op, vals.iter().map(|v| hx64(*v)).collect::<Vec<_>>().join(" ")));
@@ -284,6 +283,24 @@ pub fn gen(prop: &str, seed: u64, tier: u32) -> Vec<String> {
         _ => {}
     }
     out
+}
+
+/// a 3x3 matrix (row-major) with entries in [-2,2] drawn from one of several structure classes
+pub fn structured_matrix(r: &mut Rng) -> Vec<f64> {
+    let mut m = vec![0.0f64; 9];
+    let rnd = |r: &mut Rng| r.range(-2.0, 2.0) as f64;
+    match r.below(10) {
+        0 | 1 => for v in m.iter_mut() { *v = rnd(r); },
+        2 => for k in 0..3 { m[k * 4] = if r.below(2) == 0 { r.range(0.8, 2.0) as f64 } else { -(r.range(0.8, 2.0) as f64) }; },              // diagonal
+        3 => { let perms = [[0, 1, 2], [0, 2, 1], [1, 0, 2], [1, 2, 0], [2, 0, 1], [2, 1, 0]]; let p = perms[r.below(6) as usize]; for k in 0..3 { m[k * 3 + p[k]] = 1.0; } }
+        4 => { for k in 0..3 { m[k * 4] = 1.0; } let offs = [1usize, 2, 3, 5, 6, 7]; let n = 1 + r.below(2); for _ in 0..n { m[offs[r.below(6) as usize]] = rnd(r); } }   // shear(s)
+        5 => { let upper = r.below(2) == 0; for i in 0..3 { for j in 0..3 { if (upper && j >= i) || (!upper && j <= i) { m[i * 3 + j] = rnd(r); } } } }   // triangular
+        6 => { for v in m.iter_mut() { if r.below(3) != 0 { *v = rnd(r); } } }                                                                  // random zero mask
+        7 => { let c = [0.2126, 0.7152, 0.0722, -0.1146, -0.3854, 0.5, 0.5, -0.4542, -0.0458]; for k in 0..9 { m[k] = c[k] + (r.unit() as f64 - 0.5) * 1e-3; } }
+        8 => { let c = [0.25, 0.5, 0.25, -0.25, 0.5, -0.25, 0.5, 0.0, -0.5]; for k in 0..9 { m[k] = c[k]; } }                                   // YCgCo
+        _ => for v in m.iter_mut() { *v = *r.pick(&[-2.0f64, -1.0, 0.0, 1.0, 2.0, 0.5]); },
+    }
+    m
 }
 
 fn plane_n(w: u64, h: u64, xd: u64, yd: u64, xp: u64, yp: u64) -> String { format!("n {} {} {} {} {} {}", w, h, xd, yd, xp, yp) }
